@@ -372,11 +372,10 @@ def d5_field_diff(chk, repo):
         val = v.term(st.value, at=st)
         comp = each(v, v.spec("range(W.nvdim)", env=env))
         # index evaluated in subscript mode keeps tuple()/list(): build the expectation the same way
+        line = v.ctx.mk(("store",), (v.spec("list(i)", env={"i": each(v, it)}), env["d"], v.spec("slice(None)")))
         saved = v.ev._keep_seq
         v.ev._keep_seq = True
         try:
-            line = v.ctx.mk(("store",), (v.spec("list(i)", env={"i": each(v, it)}), env["d"],
-                                         v.spec("slice(None)")))
             e2 = dict(env, line=line, comp=comp)
             want_idx = v.spec("tuple([*line, comp])", env=e2)
             vmask = v.spec("(W.valid if restrict2valid else np.ones_like(W.valid, dtype=bool))[tuple(line)]", env=e2)
